@@ -28,8 +28,8 @@ GROUPS: dict[str, list[tuple[str, str]]] = {
     "degree": [("analysis.py", n) for n in ("compute_degree", "_estimate_tree_depth", "_compute_degree_cached", "is_linear",
                                              "is_quadratic")]
               + [("core/expressions.py", "Expression.degree")],
-    "lp_extract": [("analysis.py", n) for n in ("extract_all_linear_coefficients", "_try_extract_fast_binop", "_vector_is_aligned",
-                                                 "extract_linear_coefficient", "extract_constant_term")],
+    # extract_all_linear_coefficients, _try_extract_fast_binop, _vector_is_aligned are translated (py2lean_lpfast.py)
+    "lp_extract": [("analysis.py", n) for n in ("extract_linear_coefficient", "extract_constant_term")],
     "solution": [("solution.py", "Solution")],
     "solve_lp": [("solvers/lp_solver.py", "solve_lp")],
     "solve_scipy": [("solvers/scipy_solver.py", "solve_scipy")],
